@@ -2,7 +2,7 @@ SPECIFICATION Spec
 CONSTANTS
   MaxNodes = 6
   Keys = {1, 2}
-  Leafs = {101, 160}
+  Leafs = {101, 160, 170}
   Shapes = {200, 201, 210, 211, 220}
   MaxLen = 3
   Acts = {"dict", "list", "perm", "clone", "forget", "slice", "rebind", "inplace", "flags", "scope"}
